@@ -1,5 +1,117 @@
 /-
-  Props/C05.lean — property theorems for C05 (stub; to be filled in).
+  Props/C05.lean — C05: serialize then deserialize returns an equal value; output is pure JSON.
+
+  `ser` / `deser` (Sem/Serde.lean, Sem/Deser.lean) mirror serialize_val / deserialize_single_field;
+  `validate` is what the constructor then does with the deserialized value.  On the fragment
+  `inFrag` (scalars with every constraint, Enum by name, JSON-literal enums, Array / Deque / Tuple —
+  homogeneous or positional — at ANY nesting depth) every conforming stored value serializes to a
+  document composed only of JSON types, which deserializes back to exactly that value, which the
+  field accepts unchanged (`field_round_trip_partial`); falsy values survive
+  (`falsy_survive`); a class whose populated attributes lie in the fragment serializes to a pure
+  JSON object with exactly its populated attribute names as keys (`class_serialize_pure_json`).
+
+  `_partial`: nested structures, Optional, Set, Map, untyped collections, Anything and the
+  multi-field wrappers are mirrored by the executable model and decided by the correspondence
+  harness + round-trip oracle on the real code, but are not covered by these theorems.
 -/
+import TypedpyModel.Lemmas.RoundTrip
 namespace Typedpy.C05
+open Typedpy
+
+/-- **C05 (field level)**: serialize → pure JSON → deserialize → the constructor's validation
+    returns exactly the stored value -/
+theorem field_round_trip_partial (O : Oracles) (opts : DeserOpts) (f : FieldDecl) (v : PyVal)
+    (hc : conforms O f v = true) (hf : inFrag O f v = true) :
+    ∃ j, ser O f v = .ok j ∧ isJson j = true
+      ∧ deser O opts false f j = .ok v ∧ validate O f v = .ok v := by
+  rcases round_trip O opts f v hc hf with ⟨j, h1, h2, _, h4, h5⟩
+  exact ⟨j, h1, h2, h4, h5⟩
+
+theorem serialize_pure_json_partial (O : Oracles) (f : FieldDecl) (v : PyVal)
+    (hc : conforms O f v = true) (hf : inFrag O f v = true) :
+    ∃ j, ser O f v = .ok j ∧ isJson j = true := by
+  rcases round_trip O {} f v hc hf with ⟨j, h1, h2, _⟩
+  exact ⟨j, h1, h2⟩
+
+theorem serField_lookup (O : Oracles) (k : String) (v : PyVal) (f : FieldDecl) :
+    ∀ fields : List (String × FieldDecl), lookup k fields = some f → serField O fields k v = ser O f v
+  | [], h => by simp [lookup] at h
+  | (n, g) :: rest, h => by
+    simp only [lookup] at h
+    simp only [serField]
+    by_cases hk : (k == n) = true
+    · simp only [hk, if_true, Option.some.injEq] at h
+      simp only [hk, if_true, h]
+    · simp only [hk, Bool.false_eq_true, if_false] at h ⊢
+      exact serField_lookup O k v f rest h
+
+theorem attrs_pure (O : Oracles) (fields : List (String × FieldDecl)) :
+    ∀ attrs : List (String × PyVal),
+      (∀ a ∈ attrs, ∃ f, lookup a.1 fields = some f ∧ conforms O f a.2 = true ∧ inFrag O f a.2 = true) →
+      ∃ r, mapE (fun (a : String × PyVal) =>
+            bindE (serField O fields a.1 a.2) fun j => .ok (PyVal.str a.1, j)) attrs = .ok r
+        ∧ isJsonPairs r = true ∧ r.map (·.1) = attrs.map (fun a => PyVal.str a.1)
+  | [], _ => ⟨[], rfl, rfl, rfl⟩
+  | a :: rest, h => by
+    rcases h a (by simp) with ⟨f, hl, hc, hf⟩
+    rcases round_trip O {} f a.2 hc hf with ⟨j, h1, h2, _⟩
+    rcases attrs_pure O fields rest (fun b hb => h b (by simp [hb])) with ⟨r, g1, g2, g3⟩
+    refine ⟨(.str a.1, j) :: r, ?_, ?_, ?_⟩
+    · simp [mapE, serField_lookup O a.1 a.2 f fields hl, h1, g1]
+    · simp [isJsonPairs, isJsonKey, h2, g2]
+    · simp [g3]
+
+/-- **C05 (class level, purity)**: an instance whose populated attributes are declared fields of
+    the fragment serializes to a JSON object whose keys are exactly the populated attribute names -/
+theorem class_serialize_pure_json (O : Oracles) (c : ClassOpts) (fields : List (String × FieldDecl))
+    (defaults : List (String × PyVal)) (attrs : List (String × PyVal))
+    (hnn : attrs.all (fun a => !a.2.isNone) = true)
+    (h : ∀ a ∈ attrs, ∃ f, lookup a.1 fields = some f ∧ conforms O f a.2 = true ∧ inFrag O f a.2 = true) :
+    ∃ r, serialize O (.struct c fields defaults) (.inst c.name attrs) = .ok (.dict r)
+      ∧ isJson (.dict r) = true ∧ r.map (·.1) = attrs.map (fun a => PyVal.str a.1) := by
+  rcases attrs_pure O fields attrs h with ⟨r, g1, g2, g3⟩
+  refine ⟨r, ?_, by simp [isJson, g2], g3⟩
+  have hfil : attrs.filter (fun a => !a.2.isNone) = attrs := List.filter_eq_self.mpr (by
+    intro a ha; exact (List.all_eq_true.mp hnn) a ha)
+  simp [serialize, ser, sInst, hfil, g1]
+
+/-! ### falsy values survive; non-vacuity -/
+
+def exO : Oracles := { reMatch := fun _ _ => true }
+
+/-- 0, '', False, [] and a nested empty tuple survive the field-level round trip -/
+theorem falsy_survive :
+    (∃ j, ser exO (.integer {}) (.int 0) = .ok j ∧ deser exO {} false (.integer {}) j = .ok (.int 0))
+    ∧ (∃ j, ser exO (.string none none none) (.str "") = .ok j
+          ∧ deser exO {} false (.string none none none) j = .ok (.str ""))
+    ∧ (∃ j, ser exO .boolean (.bool false) = .ok j ∧ deser exO {} false .boolean j = .ok (.bool false))
+    ∧ (∃ j, ser exO (.seqOf .list (.integer {}) {}) (.list []) = .ok j
+          ∧ deser exO {} false (.seqOf .list (.integer {}) {}) j = .ok (.list [])) := by
+  refine ⟨?_, ?_, ?_, ?_⟩
+  · rcases field_round_trip_partial exO {} (.integer {}) (.int 0) (by decide) (by decide) with ⟨j, a, _, b, _⟩
+    exact ⟨j, a, b⟩
+  · rcases field_round_trip_partial exO {} (.string none none none) (.str "") (by decide) (by decide)
+      with ⟨j, a, _, b, _⟩
+    exact ⟨j, a, b⟩
+  · rcases field_round_trip_partial exO {} .boolean (.bool false) (by decide) (by decide) with ⟨j, a, _, b, _⟩
+    exact ⟨j, a, b⟩
+  · rcases field_round_trip_partial exO {} (.seqOf .list (.integer {}) {}) (.list []) (by decide) (by decide)
+      with ⟨j, a, _, b, _⟩
+    exact ⟨j, a, b⟩
+
+def exDecl : FieldDecl :=
+  .seqOf .deque (.tuplePos [.enumCls "Color" ["RED", "BLUE"], .float { min := some ⟨0, 1⟩ },
+                            .seqOf .list (.string (some 1) none none) { uniq := true }] true) { max := some 3 }
+def exVal : PyVal :=
+  .deque [.tuple [.enumv "Color" "BLUE", .float ⟨3, 2⟩, .list [.str "a", .str "b"]], .tuple [.enumv "Color" "RED", .float ⟨0, 1⟩, .list []]]
+
+theorem round_trip_example :
+    conforms exO exDecl exVal = true ∧ inFrag exO exDecl exVal = true
+    ∧ (match ser exO exDecl exVal with
+        | .ok j => isJson j && (match deser exO {} false exDecl j with
+            | .ok (.deque [.tuple [.enumv "Color" "BLUE", _, _], .tuple [.enumv "Color" "RED", _, .list []]]) => true
+            | _ => false)
+        | .error _ => false) = true := by
+  decide
+
 end Typedpy.C05
